@@ -15,6 +15,9 @@ MON = ["C12", "C04", "C05", "C02"]
 
 def cells(tier):
     out = []
+    for dn, da in {"gac": [[GAC]], "flush,gac": [[FLUSH], [GAC]], "gacRE": [[GAC_RE]]}.items():
+        sc = scen(pool(2), [[A("A", 2, worker="retexc")], [A("B", 1)]] + da, outcomes=["ret", "exc"], ecb="plain", ccb="plain")
+        out.append(cell(f"s2 A2 returns-an-exception-instance|B1 {dn}", sc, MON))
     q = tier == "quick"
     for size in [1, 2]:
         for fin, fa in {"flush": FLUSH, "flushRE": FLUSH_RE, "gac": GAC, "gacRE": GAC_RE}.items():
